@@ -60,7 +60,10 @@ def gen(rng):
         a0, b0, a1, b1 = -1.0, 2.0, 0.5, 1.5
         xs = [[[a0, dy(rng)] for _ in range(nb)], [[b0, dy(rng)] for _ in range(nb)], [[dy(rng), a1] for _ in range(nb)], [[dy(rng), b1] for _ in range(nb)]]
     ts = [dy(rng, 0, 4) for _ in range(nt)]
-    cfg["points"] = [[([t] if not statio else []) + x for t in (ts if not statio else [None]) for x in xs[fa]] for fa in range(nf)]
+    # a hand-built batch may carry different times on different facets: every facet uses its own time column
+    own_times = (not statio) and rng.random() < 0.5
+    tsf = [[dy(rng, 0, 4) for _ in range(nt)] if own_times else ts for _ in range(nf)]
+    cfg["points"] = [[([t] if not statio else []) + x for t in (tsf[fa] if not statio else [None]) for x in xs[fa]] for fa in range(nf)]
     return cfg
 
 
@@ -174,7 +177,7 @@ def generate(tier, seed, casedir, variant):
         viol.append({"detail": f"separable / pointwise boundary comparison raised {type(ex).__name__}: {str(ex)[:300]}", "case": {"what": "impl_vs_impl"}})
     dist["separable_vs_pointwise_rounds"] = nsep
     return dict(meta=meta, oracle_violations=viol, evaluations=len(cases), distinct_nontrivial=len(nontrivial), samples=samples, distribution=dist,
-                rule="random (stationary / non-stationary, 1-D / 2-D) polynomial networks with 1..2 outputs, non-zero polynomial boundary functions returning a 0-d array, a (1,) array or a (k,) array, global or per-facet conditions (dictionaries written in any key order) with facets set to none, component selections (slices, or an integer index, 0 included), 1..3 time points, hand-built border batches on the box [-1,2]x[0.5,1.5] and (every tenth case) batches made by CubicMeshPDEStatio; non-trivial = non-zero term; plus separable-network against pointwise boundary terms (oracle only)",
+                rule="random (stationary / non-stationary, 1-D / 2-D) polynomial networks with 1..2 outputs, non-zero polynomial boundary functions returning a 0-d array, a (1,) array or a (k,) array, global or per-facet conditions (dictionaries written in any key order) with facets set to none, component selections (slices, or an integer index, 0 included), 1..3 time points (the same on every facet or different ones per facet), hand-built border batches on the box [-1,2]x[0.5,1.5] and (every tenth case) batches made by CubicMeshPDEStatio; non-trivial = non-zero term; plus separable-network against pointwise boundary terms (oracle only)",
                 oracle_checks=0)
 
 
